@@ -17,10 +17,10 @@ def grid_specs(draw, max_cells={1: 40, 2: 8, 3: 4}, dims=(1, 2, 3), min_cells=2,
     while True:
         shape = []
         for _ in range(dim):
-            if thin and draw(st.integers(0, 4)) == 0:
+            if thin and draw(st.sampled_from([False, False, False, False, False, True])):
                 shape.append(1)
             else:
-                shape.append(draw(st.integers(1, max_cells[dim])))
+                shape.append(draw(st.integers(2, max(2, max_cells[dim]))))
         if int(np.prod(shape)) >= min_cells:
             break
         shape[draw(st.integers(0, dim - 1))] = draw(st.integers(2, max_cells[dim]))
